@@ -1,7 +1,10 @@
+#[cfg(feature = "verif_sim_net")]
+use crate::sim_net::TcpStream;
+#[cfg(not(feature = "verif_sim_net"))]
+use std::net::TcpStream;
 use std::{
     error::Error,
     io::{self, IoSlice, Read, Write},
-    net::TcpStream,
 };
 
 use bevy_replicon::bytes::{Buf, Bytes};
